@@ -17,6 +17,7 @@ import json
 import multiprocessing
 import os
 import random
+import re
 import shutil
 import signal
 import subprocess
@@ -383,7 +384,7 @@ def _run(mod, ctx, args, t0):
     reasons = {}
     for r in results:
         if r["status"] == INCONCLUSIVE:
-            key = (r.get("reason") or "?")[:80]
+            key = re.sub(r"[-+]?[0-9]+\.?[0-9]*([eE][-+]?[0-9]+)?", "#", (r.get("reason") or "?"))[:80]
             reasons[key] = reasons.get(key, 0) + 1
     samples = [r["sample"] for r in results if r.get("sample") is not None and r["status"] == HELD][:3]
     if not samples:
